@@ -231,6 +231,10 @@ class _Skip(Exception):
     pass
 
 
+class _OperandRenamed(RuntimeError):
+    """an operation changed the stored name of one of its OPERANDS (names are kept by the sources too)"""
+
+
 def _vec(n, name, shift=0):
     from serif import Vector
     return Vector([shift + i for i in range(n)], name=name)
@@ -249,6 +253,13 @@ def _ev_fit_pair(ev_a, ev_b, a, b, rec, path):
         raise _Skip("empty operand")
     ra, rb = _cut(xa, m), _cut(xb, m)
     return ra, rb
+
+
+def _same_names(k, pairs):
+    for obj, before in pairs:
+        now = _names(obj)
+        if now != before:
+            raise _OperandRenamed(f"operand-renamed: after {k} an operand's stored name(s) changed from {before} to {now}")
 
 
 def _names(x):
@@ -361,14 +372,27 @@ def ev_t(e, rec, path=""):
         rec.append((a, _names(xa)))
         rec.append((b, _names(xb)))
         r = (xa >> xb) if k == "appt" else getattr(operator, e[1])(xa, xb)
+        _same_names(k, [(xa, rec[-2][1]), (xb, rec[-1][1])])
     elif k == "appv":
         xa, xb = _ev_fit_pair(ev_t, ev_v, e[1], e[2], rec, path)
         rec.append((e[1], _names(xa)))
         rec.append((e[2], _names(xb)))
         r = xa >> xb
+        _same_names(k, [(xa, rec[-2][1]), (xb, rec[-1][1])])
     elif k == "appd":
         t = ev_t(e[1], rec, path)
-        r = t >> {key: list(range(len(t))) for key in e[2]}
+        before = _names(t)
+        if len(t) % 2:
+            # the dict's values are named vectors the program keeps (a free-standing one, a live column of another table):
+            # the label goes on the NEW column, the sources keep their stored names
+            other = Table([_vec(len(t), "kept", 7)])
+            src = {key: (other.cols()[0] if i == 0 else _vec(len(t), f"src{i}", i)) for i, key in enumerate(e[2])}
+            held = [(v, _names(v)) for v in src.values()] + [(other, _names(other))]
+            r = t >> src
+            _same_names(k, held)
+        else:
+            r = t >> {key: list(range(len(t))) for key in e[2]}
+        _same_names(k, [(t, before)])
     elif k == "tkeep":
         t = ev_t(e[2], rec, path)
         n = len(t)
